@@ -44,10 +44,20 @@ class Obj:
     def __ne__(self, o): return not self.__eq__(o)
     def __hash__(self): return hash(('Obj', self.label))
 
-_EXO = {'mode': None, 'fwd': {}, 'inv': {}, 'imode': None}
+_EXO = {'mode': None, 'fwd': {}, 'inv': {}, 'imode': None, 'vmode': None}
 
-def exotic_reset(mode=None, imode=None):
-    _EXO['mode'] = mode; _EXO['imode'] = imode; _EXO['fwd'] = {}; _EXO['inv'] = {}
+_JSON_DEFAULT = json.JSONEncoder.default
+def _np_json_default(self, o):
+    import numpy as _np
+    if isinstance(o, _np.integer):
+        return int(o)
+    return _JSON_DEFAULT(self, o)
+
+def exotic_reset(mode=None, imode=None, vmode=None):
+    _EXO['mode'] = mode; _EXO['imode'] = imode; _EXO['fwd'] = {}; _EXO['inv'] = {}; _EXO['vmode'] = vmode
+    # (the harness's own records of attribute values are JSON texts: while numpy scalars stand in for integers,
+    # they are written as the integers they are; scripts of this mode never call the library's JSON layer)
+    json.JSONEncoder.default = _np_json_default if vmode == 'np' else _JSON_DEFAULT
 
 def _exo_atom(x):
     """plain atom (int / str / float) -> the exotic value standing for it in this script"""
@@ -166,9 +176,17 @@ def parse_idx(t):
 def aval_tok(v):
     if type(v) is int:
         return 'i%d' % v
+    if _EXO['vmode'] == 'np':
+        import numpy as _np
+        if isinstance(v, _np.integer):
+            return 'i%d' % int(v)
     return 's' + esc(json.dumps(v, sort_keys=True, ensure_ascii=True, separators=(',', ':')))
 
 def parse_aval(t):
+    if t[0] == 'i' and _EXO['vmode'] == 'np':
+        import numpy as _np
+        v = int(t[1:])
+        return _np.uint8(v) if 0 <= v <= 255 else _np.int64(v)
     return int(t[1:]) if t[0] == 'i' else json.loads(unesc(t[1:]))
 
 def dict_s(d):
@@ -326,7 +344,10 @@ class ImplWorld:
             return line, [line]
         if kw == 'exotic':
             # exotic <name mode|-> <index mode|->: from here on the implementation sees exotic names / indices
-            exotic_reset(None if toks[1] == '-' else toks[1], None if len(toks) < 3 or toks[2] == '-' else toks[2])
+            # (a third argument `np`: integer attribute values and integral coordinates are handed over as numpy
+            # fixed-width scalars -- numpy.uint8 / int64, numpy.int32 -- the way data read from arrays arrives)
+            exotic_reset(None if toks[1] == '-' else toks[1], None if len(toks) < 3 or toks[2] == '-' else toks[2],
+                         None if len(toks) < 4 or toks[3] == '-' else toks[3])
             return 'echo ' + line, ['echo ' + line]
         if kw == 'snap':
             return line, self.snapshot(toks[1])
@@ -544,6 +565,9 @@ class ImplWorld:
             self.annot = 'emb %s %s %d' % (e, v, dim); return None
         if kw == 'pos':
             e = T.next(); s = T.name(); p = T.lst(lambda: float.fromhex(T.next()))
+            if _EXO['vmode'] == 'np' and all(x == int(x) and abs(x) <= 1.0e9 for x in p):
+                import numpy as _np
+                p = [_np.int32(int(x)) for x in p]
             V[e].positionSimplex(s, p); return None
         if kw == 'getpos':
             e = T.next(); s = T.name(); return coords_s(V[e].positionOf(s))
